@@ -15,6 +15,9 @@ FAMILY = family("C07", [
              sim_depth=700),
     ModelCfg("c07-n3o5e1", consts(3, 5, 1, OPS, cleanups="{0, 1}"), tiers=("thorough",), check=False,
              simulate=10000, sim_depth=800),
+    # both iteration orders of the scopes' task / child-scope sets (Python sets), model check only
+    ModelCfg("c07-n3o3e1-orders", consts(3, 3, 1, '{"tgopen", "close", "start", "started", "yield", "wait", "raise"}', orders="{FALSE, TRUE}"),
+             tiers=("thorough",)),
 ])
 
 
